@@ -46,4 +46,42 @@ def canClean (c : Cache) (f : Nat) : Bool := c f == some 0
 /-- `storeCache.Cleanup()` closing exactly the entries `fs` -/
 def cleanup (c : Cache) (fs : List Nat) : Cache := fs.foldl evict c
 
+/-! ### the concrete cache: LRU list, `last` timestamps, TTL
+
+`Cache` above forgets the LRU order and the timestamps; `Cleanup` is nondeterministic there. The
+list model below is what kv/table/cache.go does; Lemmas/C02Lru.lean proves that its TTL/LRU
+`Cleanup` (and `Evict`) are instances of the abstract steps. -/
+
+/-- `cacheEntry` (key = file name = table number) -/
+structure Entry where
+  file : Nat
+  ref : Int
+  last : Nat      -- `entry.last`: time of the last `retain()`
+deriving Repr, DecidableEq
+
+/-- `LRUCache.evictList`, front (most recently used) first -/
+abbrev Lru := List Entry
+
+/-- the abstraction to `Cache` -/
+def absLru (l : Lru) : Cache := fun f => (l.find? (fun e => e.file == f)).map (·.ref)
+
+/-- `GetReader` at time `now`: hit ⇒ `cache.Get` (MoveToFront) + `retain()` (ref+1, last := now);
+miss ⇒ open (file must exist) + `retain()` + `cache.Add` (PushFront) -/
+def lruGet (l : Lru) (disk : List Nat) (now f : Nat) : Option Lru :=
+  match l.find? (fun e => e.file == f) with
+  | some e => some ({ e with ref := e.ref + 1, last := now } :: l.filter (fun x => x.file != f))
+  | none => if f ∈ disk then some ({ file := f, ref := 1, last := now } :: l) else none
+
+/-- `Evict(fileName)`: `cache.Get` found ⇒ close + `cache.Remove` -/
+def lruEvict (l : Lru) (f : Nat) : Lru := l.filter (fun x => x.file != f)
+
+/-- the guard of `Cleanup`'s walk function: `entry.ref.Load() == 0 && now - entry.last > ttl` -/
+def expired (ttl : Int) (now : Nat) (e : Entry) : Bool := e.ref == 0 && decide ((now : Int) - (e.last : Int) > ttl)
+
+/-- `Cleanup()` = `LRUCache.Walk`: look at the BACK of the list; expired and unreferenced ⇒ close +
+remove and go on, otherwise stop. What stays: -/
+def lruWalk (ttl : Int) (now : Nat) (l : Lru) : Lru := (l.reverse.dropWhile (expired ttl now)).reverse
+/-- … and which entries were closed -/
+def lruClosed (ttl : Int) (now : Nat) (l : Lru) : List Nat := (l.reverse.takeWhile (expired ttl now)).map (·.file)
+
 end LinVerif.TableCache
